@@ -130,6 +130,22 @@ type connState struct {
 	r io.WriteCloser
 }
 
+// maxReplyPayload returns the largest payload an Rread or Rreaddir may carry
+// for its frame (size[4] type[1] tag[2] count[4] payload) to fit in the
+// negotiated message size.
+func (cs *connState) maxReplyPayload() uint32 {
+	msize := atomic.LoadUint32(&cs.messageSize)
+	if msize == 0 {
+		// Default or not yet negotiated.
+		msize = maximumLength
+	}
+	const overhead = headerLength + 4
+	if msize < overhead {
+		return 0
+	}
+	return msize - overhead
+}
+
 // xattrOp is the xattr related operations, walk or create.
 type xattrOp int
 
